@@ -678,8 +678,8 @@ Proof.
     intros a; unfold E; cbn; apply bt_get_upd.
 Qed.
 
-Lemma withdraw_inv now st caller who t amount :
-  MarketInv now st -> MarketInv now (fst (withdraw_balance st caller who t amount)).
+Lemma withdraw_inv now st caller who t amount pf :
+  MarketInv now st -> MarketInv now (fst (withdraw_balance st caller who t amount pf)).
 Proof.
   intros I. unfold withdraw_balance.
   destruct (amount <? 0) eqn:Ea; [exact I|]. zb.
@@ -691,7 +691,7 @@ Proof.
   set (sub := Z.min (Z.max 0 (bt_get (escrow st) who - bt_get (locked st) who)) amount).
   assert (Hsub : 0 <= sub <= bt_get (escrow st) who - bt_get (locked st) who) by (unfold sub; lia).
   destruct (0 <? sub) eqn:Es; zb.
-  - rewrite bt_add_ok by lia.
+  - rewrite bt_add_ok by lia. destruct pf as [cf|]; [exact I|].
     pose proof (inv_E_le_balance _ _ _ _ who I) as Hb. unfold E in Hb.
     destruct (balance st <? sub) eqn:Eb; zb; [lia|]. cbn [fst].
     unfold MarketInv, InvS; cbn [proposals states set_funds set_escrow tot_ccoll tot_pcoll tot_fee escrow balance next_id].
@@ -699,7 +699,7 @@ Proof.
     eapply invc_withdraw with (who := who) (ex := sub); [exact I| |].
     + change (L (set_funds _ _ _) who) with (L st who). unfold E, L. lia.
     + intros a. unfold E. cbn. rewrite bt_get_upd. unfold ind. destruct (a =? who); lia.
-  - assert (sub = 0) as Hz by lia.
+  - assert (sub = 0) as Hz by lia. destruct pf as [cf|]; [exact I|].
     destruct (balance st <? sub) eqn:Eb; [exact I|]. cbn [fst].
     unfold MarketInv, InvS; cbn [proposals states set_funds set_escrow tot_ccoll tot_pcoll tot_fee escrow balance next_id].
     rewrite Hz. replace (balance st - 0) with (balance st) by lia. exact I.
@@ -1310,9 +1310,10 @@ Theorem states_subset_proposals now st id ds : MarketInv now st -> states st !! 
   exists p, proposals st !! id = Some p /\ wf_ds now p ds.
 Proof. intros I H. exact (i_wfS _ _ _ _ _ _ _ _ _ _ _ _ I id ds H). Qed.
 
-Theorem withdraw_exact now st caller who t amt st' paid recipient :
+Theorem withdraw_exact now st caller who t amt pf st' paid recipient :
   MarketInv now st ->
-  withdraw_balance st caller who t amt = (st', [OK; paid; recipient]) ->
+  withdraw_balance st caller who t amt pf = (st', [OK; paid; recipient]) ->
+  pf = None /\
   paid = Z.min amt (E st who - L st who) /\ 0 <= paid /\
   E st' who = E st who - paid /\ (forall a, a <> who -> E st' a = E st a) /\
   (forall a, L st' a = L st a) /\ balance st' = balance st - paid /\
@@ -1328,20 +1329,21 @@ Proof.
   set (sub := Z.min (Z.max 0 (bt_get (escrow st) who - bt_get (locked st) who)) amt).
   assert (Hsub : sub = Z.min amt (bt_get (escrow st) who - bt_get (locked st) who) /\ 0 <= sub) by (unfold sub; lia).
   destruct (0 <? sub) eqn:Es; zb.
-  - rewrite bt_add_ok by lia.
-    destruct (balance st <? sub); [discriminate|]. intros [= <- <- <-]. cbn.
+  - rewrite bt_add_ok by lia. destruct pf as [cf|]; [discriminate|].
+    destruct (balance st <? sub); [discriminate|]. intros [= <- <- <-]. cbn. split; [reflexivity|].
     split; [tauto|]. split; [lia|].
     split; [rewrite bt_get_upd, ind_same; lia|].
     split; [intros a Ha; rewrite bt_get_upd, ind_diff by exact Ha; lia|].
     repeat split; reflexivity.
-  - destruct (balance st <? sub); [discriminate|]. intros [= <- <- <-]. cbn.
+  - destruct pf as [cf|]; [discriminate|].
+    destruct (balance st <? sub); [discriminate|]. intros [= <- <- <-]. cbn. split; [reflexivity|].
     assert (sub = 0) by lia.
     split; [tauto|]. split; [lia|]. split; [lia|]. split; [reflexivity|].
     repeat split; try reflexivity; lia.
 Qed.
 
-Theorem withdraw_auth st caller who t amt st' paid recipient :
-  withdraw_balance st caller who t amt = (st', [OK; paid; recipient]) ->
+Theorem withdraw_auth st caller who t amt pf st' paid recipient :
+  withdraw_balance st caller who t amt pf = (st', [OK; paid; recipient]) ->
   match t with
   | TNone => False
   | TAccount => caller = who /\ recipient = who
@@ -1352,11 +1354,11 @@ Proof.
   destruct (amt <? 0); [discriminate|].
   destruct t as [| |o w cs]; cbn [escrow_address]; [discriminate| |].
   - destruct (negb (zmem caller [who])) eqn:Ec; [discriminate|].
-    destruct (bt_sub_with_min _ _ _ _) as [[e' ex]|]; [|discriminate].
+    destruct (bt_sub_with_min _ _ _ _) as [[e' ex]|]; [|discriminate]. destruct pf; [discriminate|].
     destruct (balance st <? ex); [discriminate|]. intros [= _ _ <-].
     cbn in Ec. rewrite orb_false_r in Ec. zb. auto.
   - destruct (negb (zmem caller [o; w])) eqn:Ec; [discriminate|].
-    destruct (bt_sub_with_min _ _ _ _) as [[e' ex]|]; [|discriminate].
+    destruct (bt_sub_with_min _ _ _ _) as [[e' ex]|]; [|discriminate]. destruct pf; [discriminate|].
     destruct (balance st <? ex); [discriminate|]. intros [= _ _ <-].
     cbn in Ec. rewrite orb_false_r in Ec. zb. apply orb_true_iff in Ec as [Ec|Ec]; zb; auto.
 Qed.
